@@ -6,10 +6,25 @@ import c19
 import x06en
 import x06fe
 import x06rl
+import x11fw
 import serve_common as sc
 
 
+def _forward_replay(ctx, replay, families):
+    """a recorded violation of the Forward tier (driver forward-replay) is re-run by that tier's own replay entry"""
+    import json
+    with open(replay) as f:
+        rec = json.load(f)
+    if (rec.get("replay") or rec).get("driver") != "forward-replay":
+        return False
+    ctx.overlay_tags.add("x11fw")
+    x11fw.replay_file(ctx, replay, families)
+    return True
+
+
 def run(ctx, replay):
+    if replay and _forward_replay(ctx, replay, ("c06",)):
+        return
     thorough = ctx.tier == "thorough"
     if replay:
         # a violation recorded by the Serve driver carries its history: re-run that history alone; anything else is
@@ -63,3 +78,12 @@ def run(ctx, replay):
     # stamped into, in the stored bytes of a cache entry; the tier's C05 class (engine entry == decoded entry) is drift here
     x06en.ONLY = "C06"
     x06en.run_tier(ctx)
+    # the reply contract on every TERMINAL OUTCOME of the forwarder / failover state machine (Forward.tla, the `id`
+    # dimension: ReplyEchoesClientId): a relayed answer of either pool, the retained upstream failure of either walk
+    # (a fallback's was asked under a transaction ID of the server's own), the synthesised / request-local / over-budget
+    # SERVFAILs - ID, question and OPT echo, nothing of an upstream's AD / options reflected
+    ctx.overlay_tags.add("x11fw")
+    ov = os.path.join(ctx.scratch, "overlay.json")
+    if os.path.exists(ov):
+        os.remove(ov)
+    x11fw.run_echo(ctx)
